@@ -49,9 +49,11 @@ SHAPES = {
     # the same field name re-generated with another width (a stage that narrows / widens a field it reads)
     "narrowing_overwrite": ([("src", ["a"], {"a": 3}), ("fn", ["a"], ["a"], {"a": 1}), ("sink", ["a"])], ["pipe", "pipe"]),
     "widening_overwrite_fifo": ([("src", ["a", "b"], {"a": 1}), ("fn", ["a"], ["a"], {"a": 3}), ("fn", ["a", "b"], ["c"]), ("sink", ["a", "c"])], [("fifo", 2), "pipe", "pipe"]),
+    # an empty point (allow_empty=True): between the two nodes only the presence of an item is passed on
+    "empty_point": ([("src", ["a"]), ("fn", ["a"], []), ("call", [], ["r"]), ("sink", ["r"])], ["pipe", "pipe", "pipe"]),
     "five_nodes": ([("src", ["a"]), ("fn", ["a"], ["b"]), ("fn", ["a", "b"], ["c"]), ("fn", ["c"], ["d"]), ("sink", ["d"])], ["pipe", "pipe", ("fifo", 2), "pipe"]),
 }
-QUICK = ["src_fn_sink", "passthrough_fields", "fifo_links", "mixed_links", "called_method", "decoupled_source", "narrowing_overwrite", "widening_overwrite_fifo"]
+QUICK = ["src_fn_sink", "passthrough_fields", "fifo_links", "mixed_links", "called_method", "decoupled_source", "narrowing_overwrite", "widening_overwrite_fifo", "empty_point"]
 
 
 def configs(tier):
@@ -106,6 +108,8 @@ def _stage_body(ins, outs, ow):
 
 def _callee_body(ins, outs):
     def body(arg):
+        if not ins:
+            return {o: 2 for o in outs}
         return {o: (~arg[ins[0]])[:W] for o in outs}
 
     return body
@@ -132,7 +136,7 @@ class PipeDesign(Elaboratable):
 
     def elaborate(self, platform):
         m = TModule()
-        m.submodules.pipeline = p = self.p = PipelineBuilder()
+        m.submodules.pipeline = p = self.p = PipelineBuilder(allow_empty=any(not lk for lk in self.spec_links))
         for i, node in enumerate(self.nodes):
             if i > 0 and self.links[i - 1] != "pipe":
                 p.fifo(self.links[i - 1][1])
@@ -284,7 +288,7 @@ def run(cfg, ctx):
         elif kind == "call":
             meth, _ = d2.called[i]
             for k in gen_fields:
-                genv[k] = ~field(head, lay_of[i - 1], node[1][0])
+                genv[k] = ~field(head, lay_of[i - 1], node[1][0]) if node[1] else z3.BitVecVal(2, out_widths(node)[k])
             P(f"node{i}.called_method_gets_required_fields", z3.Implies(fire[i], z3.And(*[hw.sig(meth.data_in[k]) == field(head, lay_of[i - 1], k) for k in node[1]])))
         if kind == "sink":
             io = th.m[f"ext{i}"]
@@ -297,6 +301,11 @@ def run(cfg, ctx):
                 v = genv[name] if name in genv else field(head, lay_of[i - 1], name)
                 parts.append((f.offset, v))
             parts.sort(key=lambda t: t[0])
+            if not parts:
+                # an empty point: the connector carries no field, only the presence of an item
+                n_exp = V[i].n - N(fire[i + 1]) + N(fire[i])
+                P(f"link{i}.step.view", z3.And(V1[i].n == z3.If(clr, N(0), n_exp), z3.ULE(n_exp, N(conns[i].cap))))
+                continue
             rec = z3.Concat(*reversed([v for _, v in parts])) if len(parts) > 1 else parts[0][1]
             exp = V[i].drop(N(fire[i + 1])).append1(rec, fire[i])
             cap = conns[i].cap
